@@ -526,7 +526,17 @@ class Canonicaliser:
                                 return ast.copy_location(clone(v), node)
                 return node
         Tables().visit(fn)
-        if not (changed or table_hit[0]):
+        # `from operator import mul [as m]`: the bare names
+        from_ops = {}
+        tree_ = self.pm.modules[modname][1] if modname in self.pm.modules else None
+        for n in (tree_.body if tree_ is not None else []):
+            if isinstance(n, ast.ImportFrom) and n.module == "operator":
+                for a in n.names:
+                    from_ops[a.asname or a.name] = a.name
+        uses_ops = bool(from_ops) and any(isinstance(x, ast.Name) and x.id in from_ops and isinstance(x.ctx, ast.Load)
+                                          for x in ast.walk(fn)) and not any(
+            isinstance(x, ast.Name) and x.id in from_ops and isinstance(x.ctx, ast.Store) for x in ast.walk(fn))
+        if not (changed or table_hit[0] or uses_ops):
             return
         # callable locals: `op = operator.add` / `op = lambda …` bound once, used only as `op(…)`
         assigns = {}
@@ -548,10 +558,31 @@ class Canonicaliser:
             self._drop_stmt(fn, defs[0])
         opmap = {"add": ast.Add, "sub": ast.Sub, "mul": ast.Mult, "truediv": ast.Div}
 
+        def is_op(f):
+            if isinstance(f, ast.Attribute) and isinstance(f.value, ast.Name) and aliases.get(f.value.id) == "operator" \
+                    and f.attr in opmap:
+                return f.attr
+            if isinstance(f, ast.Name) and uses_ops and from_ops.get(f.id) in opmap:
+                return from_ops[f.id]
+            return None
+
         class Fold(ast.NodeTransformer):
             def visit_Call(self, node):
                 self.generic_visit(node)
                 f = node.func
+                # map(<binary operator / lambda>, A, B) reads as (a <op> b for a, b in zip(A, B))
+                if isinstance(f, ast.Name) and f.id == "map" and len(node.args) == 3 and not node.keywords \
+                        and (is_op(node.args[0]) or (isinstance(node.args[0], ast.Lambda) and len(node.args[0].args.args) == 2)):
+                    a_, b_ = ast.Name(id="_map_a", ctx=ast.Load()), ast.Name(id="_map_b", ctx=ast.Load())
+                    inner = self.visit_Call(ast.Call(func=node.args[0], args=[a_, b_], keywords=[]))
+                    gen = ast.GeneratorExp(elt=inner, generators=[ast.comprehension(
+                        target=ast.Tuple(elts=[ast.Name(id="_map_a", ctx=ast.Store()), ast.Name(id="_map_b", ctx=ast.Store())],
+                                         ctx=ast.Store()),
+                        iter=ast.Call(func=ast.Name(id="zip", ctx=ast.Load()), args=[node.args[1], node.args[2]], keywords=[]),
+                        ifs=[], is_async=0)])
+                    return ast.copy_location(gen, node)
+                if is_op(f) and isinstance(f, ast.Name) and len(node.args) == 2 and not node.keywords:
+                    return ast.copy_location(ast.BinOp(left=node.args[0], op=opmap[is_op(f)](), right=node.args[1]), node)
                 if isinstance(f, ast.Lambda) and not node.keywords and len(node.args) == len(f.args.args) \
                         and not any(isinstance(a, ast.Starred) for a in node.args) and not f.args.vararg and not f.args.kwarg:
                     return ast.copy_location(substitute(clone(f.body), {p_.arg: a for p_, a in zip(f.args.args, node.args)}), node)
